@@ -702,15 +702,15 @@ def op_distribute(vs, max_n=6, labels=label_st):
     )
 
 
-def op_evo(vs, labels=label_st):
+def op_evo(vs, labels=label_st, min_tips=1):
     return st.fixed_dictionaries(
         {
             "op": st.sampled_from(["evo_aspirate", "evo_dispense"]),
             "lw": st.integers(0, 2),
             "col": st.integers(0, 11),
-            "rows": st.lists(st.integers(0, 15), min_size=1, max_size=4),
-            "tips": st.lists(st.integers(1, 8), min_size=1, max_size=4),
-            "vols": st.one_of(vs, st.lists(vs, min_size=1, max_size=4)),
+            "rows": st.lists(st.integers(0, 15), min_size=min_tips, max_size=4, unique=min_tips > 1),
+            "tips": st.lists(st.integers(1, 8), min_size=min_tips, max_size=4, unique=min_tips > 1),
+            "vols": st.one_of(vs, st.lists(vs, min_size=1, max_size=4)) if min_tips == 1 else st.lists(vs, min_size=4, max_size=4),
             "lc": st.sampled_from(["Water", "LC 2"]),
             "arm": st.sampled_from([0, 0, 1]),
             "label": labels,
